@@ -75,8 +75,14 @@ def run(pid, tier):
         out.coverage = {'explanation': 'unit did not run', 'obligations': 0, 'discharged': 0, 'checker_cmd': 'verus', 'trusted_base': TRUSTED}
         return out.finish()
     v, k, n = unit['verus'], unit['kani'], unit['native']
+    natives_clean = bool(n['results']) and not n['failures']
     if v['inconclusive']:
-        out.inconclusive.append('verus: ' + v['inconclusive'])
+        msg = 'verus could not process the index unit (%s)' % v['inconclusive'].strip().split('\n')[0][:300]
+        if natives_clean:
+            out.proof_lost.append(msg + ': the proofs of this unit are unavailable on this tree; the executable contracts of the same functions '
+                                  '(exhaustive small operation sequences, size sweeps) found no failing input')
+        else:
+            out.inconclusive.append(msg + '\n' + v['inconclusive'])
     for f in v['failures']:
         if not relevant_verus(pid, f['container'], f['fn']):
             continue
@@ -85,13 +91,15 @@ def run(pid, tier):
             out.violation(f['obligation'], 'verus (failing input from %s, harness %s)' % (cex['source'], cex['harness']), f['verifier_output'],
                           failing_input={'crate': 'idxcheck', 'harness': cex['harness'], 'bytes': cex['input_bytes'], 'failed_on_real_code': cex['replay_failed']},
                           replay_transcript=cex['replay_stdout'])
-        elif 'invariant' in f['kind'] or 'decreases' in f['kind'] or 'arithmetic' in f['kind']:
-            # a loop invariant is a proof artefact: its failure alone demonstrates nothing about the property (a correct
-            # refactor of the loop can invalidate it).  Machine-arithmetic overflow on container sizes cannot be excluded by
-            # Verus (len() <= usize::MAX is all it knows) although no in-memory map reaches it.  Both are reported as a
-            # violation only together with a failing input.
-            out.inconclusive.append('verus: %s of %s and the bounded contract enumeration of the real function found no failing input: '
-                                    'proof lost, no violation demonstrated.\n%s' % (f['kind'], f['obligation'], f['verifier_output'][:1500]))
+        elif unit_index.companions_ran_clean(f, unit) and f['fn'] != 'run_rule':
+            # No failing input exists in any domain the executable contracts of this very function were run over (exhaustive
+            # small operation sequences + size sweeps).  A Verus failure then most likely means a lost PROOF: a correct refactor
+            # can leave the solver's automation (a closure without a specification, a helper the template does not know, a
+            # restructured loop whose spliced invariant no longer fits, a machine-overflow obligation on container sizes).
+            # It is not reported as a violation.
+            out.proof_lost.append('verus: %s of %s, but the executable form of the same contract found no failing input on the real function '
+                                    '(harnesses %s): proof lost, no violation demonstrated.\n%s' % (
+                                        f['kind'], f['obligation'], ', '.join(unit_index.cex_candidates(f['container'], f['fn'])), f['verifier_output'][:1500]))
         else:
             out.violation(f['obligation'], 'verus', f['verifier_output'])
     for msg in k['inconclusive']:
@@ -147,7 +155,10 @@ def run(pid, tier):
                 out.violation('kernels::versions_base::%s' % f['obligation'], 'exhaustive native execution of the function extracted verbatim from /repo',
                               'obligation %s failed' % f['obligation'], failing_input={'kernel': 'versions_base', 'input': f['input'], 'cmd': f['cmd']})
             extra_cov['bounded_versions_base_cross_check'] = kr['results']
-            vv = unit_kernels.run_versions_verus()
+            try:
+                vv = unit_kernels.run_versions_verus()
+            except (common.Inconclusive, LostAnchor) as ex2:
+                vv = {'status': 'inconclusive', 'inconclusive': str(ex2), 'failures': [], 'functions': [], 'log': None, 'path': None, 'verus_s': 0.0}
             versions_verus = vv
             if vv['status'] == 'ok':
                 extra_cov['versions_base_verus'] = {'status': 'proved for every n (unbounded)', 'unit': vv['path'], 'solver_wall_s': round(vv['verus_s'], 2),
@@ -158,7 +169,7 @@ def run(pid, tier):
             else:
                 # the proof rests on ghost hints specific to the current algorithm: without a failing input in the bounded
                 # domain (every n <= 16/21) a failed or unprocessable proof is "proof lost", not a demonstrated violation
-                out.inconclusive.append('versions_base: the unbounded Verus proof no longer goes through (%s) and the bounded exhaustive run found no failing '
+                out.proof_lost.append('versions_base: the unbounded Verus proof no longer goes through (%s) and the bounded exhaustive run found no failing '
                                         'assignment: proof lost, no violation demonstrated.\n%s' % (
                                             vv['inconclusive'] or [f['obligation'] for f in vv['failures']],
                                             '\n'.join(f['verifier_output'][:800] for f in vv['failures'][:2])))
@@ -230,7 +241,7 @@ def run(pid, tier):
         ] + [{'verus_function': f[0], 'mode': f[1], 'micros': f[3]} for f in sel[:3]],
     }, **extra_cov)
     if tier == 'thorough' and not out.violations:
-        out.coverage['proof_stability_under_smt_seeds'] = {'index_unit.rs': common.stability_sweep(v['path'])}
+        out.coverage['proof_stability_under_smt_seeds'] = {'index_unit.rs': common.stability_sweep(v['path'])} if v['path'] else {}
     out.assumptions = list(TRUSTED) + ['Verus assumption scan: %d trusted declarations (listed under coverage.assumption_scan)' % len(v['assumption_scan'])]
     if pid in PARTIAL_NOTE:
         out.assumptions.append(PARTIAL_NOTE[pid])
